@@ -390,4 +390,7 @@ func c14Builder(c *Ctx) {
 		sort.Strings(bad)
 		r.Check(len(bad) == 0, "C14-c", "G.builder."+it.fn+":field-pairing", "", g.Where(fd.Pos()), fmt.Sprintf("%v", got), strings.Join(bad, "; "))
 	}
+	// every recovery / throw node of the grammar becomes a runtime node, unconditionally (node type, all keys on every
+	// path, no emission guard other than the nil test): a handler that is not emitted is never in force
+	builderPairing(c, "C14-c", "writeRecoveryExpr", "writeThrowExpr")
 }
